@@ -19,17 +19,33 @@ fn first_missing(w: u16) -> u64 {
     (!w).trailing_zeros() as u64
 }
 
+static mut WINDOW: u16 = 0;
+
+/// Stub for `Bitfield::get` in the contiguous-length harness: the bitfield is the 16-block window
+/// held in `WINDOW` (blocks >= 16 missing).  That the real `get` after the real `update` equals
+/// this function is what the c08_fixed_*/c08_dyn_* harnesses establish; here the subject is the
+/// arithmetic of `update_contiguous_length`, which only observes the bitfield through `get`.
+fn stub_bitfield_get(_b: &Bitfield, index: u64) -> bool {
+    index < 16 && (unsafe { WINDOW } >> index) & 1 == 1
+}
+
+/// Stub for `Bitfield::update` (no-op): under Kani the post-update bitfield is `WINDOW`; natively
+/// (concrete playback, where stubs are not applied) the real update and the real get run instead.
+fn stub_bitfield_update(_b: &mut Bitfield, _u: &BitfieldUpdate) {}
+
 /// C08-U3: one inductive step of the contiguous-length maintenance that `Hypercore::new` (replay),
-/// `append_batch` and `verify_and_apply_proof` all perform: `bitfield.update(u);
-/// update_contiguous_length(header, bitfield, u)`.
-/// Pre-state: an arbitrary 16-block window of the bitfield (every one of the 2^15 patterns with block 15 missing) with
+/// `append_batch` and `verify_and_apply_proof` all perform after `bitfield.update(u)`:
+/// `update_contiguous_length(header, bitfield, u)`.
+/// Pre-state: an arbitrary 16-block window (all 2^15 patterns, block 15 missing) with
 /// `contiguous_length` equal to its first missing index (the invariant).  One arbitrary update
 /// inside the window.  Post: the invariant holds again.  One step covers histories of any length.
 #[kani::proof]
 #[kani::stub(std::fmt::format, stub_format)]
+#[kani::stub(crate::bitfield::Bitfield::get, stub_bitfield_get)]
+#[kani::stub(crate::bitfield::Bitfield::update, stub_bitfield_update)]
 fn c08_contiguous_length_step() {
     let w: u16 = kani::any();
-    kani::assume(w & (1 << 15) == 0); // block 15 missing: keeps the scan inside the window
+    kani::assume(w & (1 << 15) == 0);
     let data = (w as u32).to_le_bytes();
     let mut bitfield = match Bitfield::open(Some(StoreInfo::new_content(Store::Bitfield, 0, &data))) {
         Either::Right(b) => b,
@@ -37,19 +53,13 @@ fn c08_contiguous_length_step() {
     };
     let mut header = Header::new(test_keypair());
     header.hints.contiguous_length = first_missing(w);
-    // sanity: the bitfield really holds the window
-    let probe: u64 = kani::any();
-    kani::assume(probe < 16);
-    assert!(bitfield.get(probe) == ((w >> probe) & 1 == 1));
-
     let u = BitfieldUpdate { drop: kani::any(), start: kani::any(), length: kani::any() };
     kani::assume(u.length >= 1 && u.start < 15 && u.length <= 15 - u.start);
-    bitfield.update(&u);
-    update_contiguous_length(&mut header, &bitfield, &u);
-
     let mask: u16 = (((1u32 << u.length) - 1) << u.start) as u16;
     let w2 = if u.drop { w & !mask } else { w | mask };
-    assert!(bitfield.get(probe) == ((w2 >> probe) & 1 == 1));
+    unsafe { WINDOW = w2 }; // the bitfield after `bitfield.update(&u)`
+    bitfield.update(&u); // stubbed out under Kani (see above), real in native playback
+    update_contiguous_length(&mut header, &bitfield, &u);
     assert!(header.hints.contiguous_length == first_missing(w2));
     kani::cover!(true, "reached end");
     std::mem::forget(header);
